@@ -186,7 +186,7 @@ def o1_advertise(ctx, name_kind, name_len, pa, mac_kind, chunk_lens, single):
     ctx.reached()
 
 
-CH_OPS = ("hop", "channel", "reenter", "other_ble", "channel_invalid")
+CH_OPS = ("hop", "channel", "reenter", "other_ble", "channel_invalid", "foreign_retune_then_channel")
 
 
 def o2_sync(ctx, ops):
@@ -203,6 +203,15 @@ def o2_sync(ctx, ops):
             v = ctx.int("bad%d" % i, 0, 125)
             ctx.assume(s_and(v != 2, v != 26, v != 80))
             b.channel = v
+        elif op == "foreign_retune_then_channel":
+            # another object retunes the shared radio behind this object's back (no `with` discipline); the next channel
+            # assignment through THIS object must put radio and whitening back in step
+            if other is None:
+                _r, other = make_ble(ctx, clock, radio)
+                b.__enter__()
+            for _ in range(1 + ctx.choice("foreign_hops%d" % i, 2)):
+                other.hop_channel()
+            b.channel = (2, 26, 80)[ctx.choice("freq%d" % i, 3)]
         elif op == "reenter":
             b.__exit__()
             b.__enter__()
